@@ -176,6 +176,8 @@ mod verif_c14 {
   #[kani::stub(crate::devices::video::VideoState::cache_next_window_tile_row, noop_tile)]
   #[kani::stub(crate::devices::video::lcd::LCD::get_writing_buffer_line, stub_line)]
   fn c14_batch_into_vblank() { batch(6, true, 143 * 456 + 440, 144 * 456); }
+  /// Thorough: a fixed 4-machine-cycle batch from any position (a symbolic batch length did not finish: the symbolic
+  /// executor unrolls every mode branch of every iteration).
   #[cfg(verif_thorough)]
   #[kani::proof]
   #[kani::unwind(12)]
@@ -184,7 +186,7 @@ mod verif_c14 {
   #[kani::stub(crate::devices::video::VideoState::cache_next_tile_row, noop_tile)]
   #[kani::stub(crate::devices::video::VideoState::cache_next_window_tile_row, noop_tile)]
   #[kani::stub(crate::devices::video::lcd::LCD::get_writing_buffer_line, stub_line)]
-  fn c14_batch8() { batch(8, false, 0, 70224); }
+  fn c14_batch4() { batch(4, true, 0, 70224); }
 
   /// Writing STAT or LYC raises the request when it makes LY == LYC visible with the enable set; power-on state is on the schedule.
   #[kani::proof]
